@@ -228,6 +228,7 @@ func init() {
 		c08TypeSwitches(c)
 		txIndexEveryEntry(c, "index-every-tx")
 		c08CacheCoherence(c)
+		l1HandlerIndexEveryEntry(c, "index-every-tx")
 		c.needFixture("index-every-tx")
 		// tables: cross-version parameter agreement
 		c08Tables(c)
@@ -499,4 +500,42 @@ func c08CacheCoherence(c *Ctx) {
 		c.und("cache-coherence", "chain caches", "", "no cache-typed field found (cachedFilters renamed?)")
 	}
 	c.needFixture("cache-coherence")
+}
+
+// l1HandlerIndexEveryEntry: the message-hash → tx-hash entry is written / removed for every L1 handler transaction of the
+// block: inside the per-transaction loop the call is guarded by the type test (and error checks) only, never by a property
+// of the handler (nonce, calldata …) — MessageHash supports nonce-less legacy handlers, and a skipped handler is stored and
+// served by every transaction accessor but cannot be found by its L1 message.
+func l1HandlerIndexEveryEntry(c *Ctx, rule string) {
+	p := c.P
+	n := 0
+	for _, fn := range p.sortedFuncs() {
+		if fn.Origin() != nil || fn.Parent() != nil || strings.HasSuffix(p.Pos(fnPos(fn)), "_test.go") || strings.HasPrefix(pkgRelOf(fn), "migration/deprecated") {
+			continue
+		}
+		for _, g := range withAnons(fn) {
+			for _, s := range sitesOf(g) {
+				if s.Callee == nil || (s.Callee.Name() != "WriteL1HandlerTxnHashByMsgHash" && s.Callee.Name() != "DeleteL1HandlerTxnHashByMsgHash") {
+					continue
+				}
+				if !inSameLoop(s.Block(), s.Block()) && g.Parent() == nil {
+					continue // single-entry helper
+				}
+				n++
+				var bad []string
+				for _, cj := range p.mustHoldAt(s.Instr) {
+					for _, a := range cj.list() {
+						if strings.Contains(a, "L1HandlerTransaction)#0.") || strings.Contains(a, "L1HandlerTransaction)#0)") && strings.Contains(a, "len(") {
+							bad = append(bad, a)
+						}
+					}
+				}
+				bad = uniq(bad)
+				c.check(len(bad) == 0, rule, qname(fn)+" → "+s.Callee.Name(), p.Pos(s.Pos()), "guarded by the type test and error checks only", "the L1-message index entry is written/removed only for handlers with "+strings.Join(bad, "; ")+": a handler skipped here is stored and returned by every accessor but cannot be resolved by its L1 message hash")
+			}
+		}
+	}
+	if n < 2 {
+		c.und(rule, "L1 handler index writers", "", fmt.Sprintf("only %d looped Write/DeleteL1HandlerTxnHashByMsgHash sites found", n))
+	}
 }
